@@ -1,9 +1,9 @@
 SPECIFICATION Spec
 CONSTANTS
   K = 2
-  MaxT = 3
-  Types = {"f", "h"}
-  Lvls = {1}
+  MaxT = 2
+  Types = {"h", "fh"}
+  Lvls = {1, 2}
   EmitMode = "cfg"
 INVARIANTS TypeOK OutSorted OutPrefix Complete FromInput SingleType WithinGroup Collapsed
 ACTION_CONSTRAINT Emit
